@@ -37,11 +37,16 @@ pub struct Ctl {
 /// produce exists, so no history leaves the image (that is C11/C12's subject, not C03's).
 /// Small images: a register value that is a non-zero multiple of the bank count is reduced to
 /// bank 0, the one bank number the 128-bank images can never show at 0x4000-0x7FFF.
-pub const CTLS: [Ctl; 4] = [
+/// Images whose size is not a power of two (header codes 0x52-0x54): the reduction of a bank
+/// number to the image is not a bit mask there, and the translator's view of the window must
+/// still be the bus's.  (mbc1/80 runs in the thorough tier only.)
+pub const CTLS: [Ctl; 6] = [
   Ctl { name: "mbc1/128", cart_type: 0x03, rom_code: 0x06, banks: 128 },
   Ctl { name: "mbc3/128", cart_type: 0x13, rom_code: 0x06, banks: 128 },
   Ctl { name: "mbc1/4", cart_type: 0x03, rom_code: 0x01, banks: 4 },
   Ctl { name: "mbc3/8", cart_type: 0x13, rom_code: 0x02, banks: 8 },
+  Ctl { name: "mbc3/72", cart_type: 0x13, rom_code: 0x52, banks: 72 },
+  Ctl { name: "mbc1/80", cart_type: 0x03, rom_code: 0x53, banks: 80 },
 ];
 
 const WRITE_BLOCKS: usize = 0x0200;
@@ -96,7 +101,10 @@ pub fn world_for(c: &Ctl, quick: bool) -> (Vec<Ev>, Vec<u8>) {
   let mut blocks: Vec<(u16, u8, String)> = Vec::new(); // (register address, value, name)
   let small = c.banks < 128;
   // (the quick tier uses a reduced set of register values on the 128-bank images)
-  let bank_values: Vec<u8> = if small { vec![1, 2, c.banks as u8, c.banks as u8 + 1, 2 * c.banks as u8] } else if quick { vec![1u8, 2, 3, 0x41] } else { vec![0u8, 1, 2, 3, 5, 0x21, 0x45] };
+  let bank_values: Vec<u8> = if !c.banks.is_power_of_two() {
+    // low banks, banks whose number has a bit the image's size lacks, the last bank, the bank count
+    vec![1, 9, 0x13, 0x23, c.banks as u8 - 1, c.banks as u8]
+  } else if small { vec![1, 2, c.banks as u8, c.banks as u8 + 1, 2 * c.banks as u8] } else if quick { vec![1u8, 2, 3, 0x41] } else { vec![0u8, 1, 2, 3, 5, 0x21, 0x45] };
   for k in bank_values.iter() {
     blocks.push((0x2100, *k, format!("bank({:02x})", k)));
   }
@@ -422,6 +430,9 @@ pub fn run(tier: &str) -> i32 {
   let mut states = 0u64;
   for ci in 0..n_ctl {
     let ctl = &CTLS[ci];
+    if tier == "quick" && ctl.name == "mbc1/80" {
+      continue;
+    }
     let (evs, img) = world_for(ctl, tier == "quick");
     let image = world::write_rom_file(&img);
     let mut results: Vec<(String, Vec<u64>, usize)> = Vec::new(); // (cfg, digests, depth)
